@@ -632,6 +632,7 @@ Notation length := List.length.
 
 
 def correspondence(ctx: Ctx, pipelines, flags):
+    VCOUNT.clear()
     byname = {p.name: (i, p) for i, p in enumerate(pipelines)}
     needed = ["level_roundtrip", "comparison_roundtrip", "settings_roundtrip", "blocking_reload_BlockingRule",
               "blocking_reload_SaltedBlockingRule", "blocking_reload_ExplodingBlockingRule"]
@@ -736,6 +737,17 @@ def correspondence(ctx: Ctx, pipelines, flags):
         ctx.obligation("correspondence: Gallina model evaluated on real records", False, "pipelines missing")
 
 
+VCOUNT: dict = {}
+
+
+def limited(ctx, kind, what, replay, feats):
+    """at most two reports per kind of disagreement and run (the first ones carry the replay)"""
+    VCOUNT[kind] = VCOUNT.get(kind, 0) + 1
+    ctx.hist("x_disagreements", kind)
+    if VCOUNT[kind] <= 2:
+        ctx.violation(what, replay, feats)
+
+
 def check_point(ctx, case, lk, backend, other, info, trained, pt, descr_ok, add_terms, flags):
     uid = case["uid"]
     info = dict(info, trained=list(trained), point=pt)
@@ -760,10 +772,10 @@ def check_point(ctx, case, lk, backend, other, info, trained, pt, descr_ok, add_
     p2 = predict_rows(lk2, uid)
     diffs = diff_predictions(p1, p2)
     if diffs:
-        ctx.violation("reloaded model scores pairs differently from the in-memory model",
-                      {"case": info, "settings_json": d1_text, "implementation": diffs,
-                       "specification": "predict() of the reloaded linker equals predict() of the in-memory linker row by row (1e-9)"},
-                      {"predictions_differ": True, "backend": backend, "route": route})
+        limited(ctx, "predictions", "reloaded model scores pairs differently from the in-memory model",
+                {"case": info, "settings_json": d1_text, "implementation": diffs,
+                 "specification": "predict() of the reloaded linker equals predict() of the in-memory linker row by row (1e-9)"},
+                {"predictions_differ": True, "backend": backend, "route": route})
     # (3) second generation JSON
     d2 = lk2.misc.save_model_to_json()
     a, b = (d1_text, json.loads(json.dumps(d2)))
@@ -771,10 +783,10 @@ def check_point(ctx, case, lk, backend, other, info, trained, pt, descr_ok, add_
         a, b = strip_descriptions(a), strip_descriptions(b)
     if a != b:
         where = [k for k in a if a.get(k) != b.get(k)]
-        ctx.violation("second-generation JSON differs from first-generation JSON",
-                      {"case": info, "implementation": {"first": {k: a[k] for k in where}, "second": {k: b.get(k) for k in where}},
-                       "specification": "save(load(save(model))) == save(model)"},
-                      {"second_generation_differs": True, "keys": where[:3]})
+        limited(ctx, "second_generation", "second-generation JSON differs from first-generation JSON",
+                {"case": info, "implementation": {"first": {k: a[k] for k in where}, "second": {k: b.get(k) for k in where}},
+                 "specification": "save(load(save(model))) == save(model)"},
+                {"second_generation_differs": True, "keys": where[:3]})
     # (4) structure of the reloaded tree + Coq-evaluated records
     s1, s2 = lk._settings_obj, lk2._settings_obj
     shape1 = [(c.output_column_name, len(c.comparison_levels)) for c in s1.comparisons]
@@ -782,8 +794,8 @@ def check_point(ctx, case, lk, backend, other, info, trained, pt, descr_ok, add_
     brs1 = [type(b).__name__ for b in s1._blocking_rules_to_generate_predictions]
     brs2 = [type(b).__name__ for b in s2._blocking_rules_to_generate_predictions]
     if shape1 != shape2 or brs1 != brs2:
-        ctx.violation("reloaded model has a different structure", {"case": info, "implementation": {
-            "in_memory": [shape1, brs1], "reloaded": [shape2, brs2]}}, {"structure_differs": True})
+        limited(ctx, "structure", "reloaded model has a different structure", {"case": info, "settings_json": d1_text,
+                "implementation": {"in_memory": [shape1, brs1], "reloaded": [shape2, brs2]}}, {"structure_differs": True})
         return
     do_coq = ctx.rng.random() < (0.7 if ctx.quick else 0.4)
     if do_coq:
